@@ -12,7 +12,7 @@ variable {K : Type} [CommRing K]
 theorem sumList_eq_listSum {α : Type} (l : List α) (f : α → K) : sumList l f = (l.map f).sum := by
   induction l with
   | nil => rfl
-  | cons x xs ih => rw [sumList_cons, ih]; simp
+  | cons x xs ih => rw [sumL_cons, ih]; simp
 
 /-- the padded grid (through a scratch buffer or through `pad(Wavefront.field)`) holds, at every grid index, the sum of
 the fields' values at the global coordinate of that index -/
